@@ -14,7 +14,8 @@ R6 = [d for d in rows if rows[d].get("round") == 6]
 R7 = [d for d in rows if rows[d].get("round") == 7]
 R8 = [d for d in rows if rows[d].get("round") == 8]
 R9 = [d for d in rows if rows[d].get("round") == 9]
-R12 = [d for d in rows if d not in R3 and d not in R4 and d not in R5 and d not in R6 and d not in R7 and d not in R8 and d not in R9]
+R10 = [d for d in rows if rows[d].get("round") == 10]
+R12 = [d for d in rows if d not in R3 and d not in R4 and d not in R5 and d not in R6 and d not in R7 and d not in R8 and d not in R9 and d not in R10]
 
 
 def table(names):
@@ -41,7 +42,8 @@ out = ["# Seeded breaking changes (written independently by sub-agents)\n",
        "| 6 | 36 | 8 | 19 | " + " ".join(d for d in R6 if rows[d]["detected_by"].startswith("missed")) + " |",
        "| 7 | 36 | %d | %d | " % (first_contact(R7), sum(1 for d in R7 if not rows[d]["detected_by"].startswith("missed"))) + " ".join(d for d in R7 if rows[d]["detected_by"].startswith("missed")) + " |",
        "| 8 | 36 | %d | %d | " % (first_contact(R8), sum(1 for d in R8 if not rows[d]["detected_by"].startswith("missed"))) + " ".join(d for d in R8 if rows[d]["detected_by"].startswith("missed")) + " |",
-       "| 9 | 36 | %d | %d | " % (first_contact(R9), sum(1 for d in R9 if not rows[d]["detected_by"].startswith("missed"))) + " ".join(d for d in R9 if rows[d]["detected_by"].startswith("missed")) + " |\n",
+       "| 9 | 36 | %d | %d | " % (first_contact(R9), sum(1 for d in R9 if not rows[d]["detected_by"].startswith("missed"))) + " ".join(d for d in R9 if rows[d]["detected_by"].startswith("missed")) + " |",
+       "| 10 | 36 | %d | %d | " % (first_contact(R10), sum(1 for d in R10 if not rows[d]["detected_by"].startswith("missed"))) + " ".join(d for d in R10 if rows[d]["detected_by"].startswith("missed")) + " |\n",
        "## Rounds 1 and 2 (18 seeds, one per claimed property)\n",
        "First contact: 4 of 18 (C07-1, C10-1, C14-1, C19-1). For 13 of the 14 misses a structural or relational necessary condition exists and a",
        "rule was added (each run program-wide and read for false reports before arming); C11-1 stays missed (which slots the compaction may drop",
@@ -83,6 +85,16 @@ out += ["\n## Round 9 (36 seeds: per property one resource / ownership slip and 
         "MUSTINSTALL and STABLETABLE report three ownership slips, ERRFX with split conditional returns one more. 16 stay missed: most are ownership",
         "questions between two parties (who releases, in which order, may the source alias the target) that no rule of this framework states.\n"]
 out += table(R9)
+out += ["\n## Round 10 (36 seeds: the agents chose the kinds themselves - the two slips they considered most likely in real maintenance of the code)\n",
+        "First contact: 11 of 36 (CODECPAIR, LINBOUNDS twice, ERANGE, CONV, RESULTCLASS, NARROW, FINALISER, IDENTOVERLAY, CONSTIFACE, FLAGPATH / PROPTABLE). The",
+        "agents mostly chose hasty fixes with an over-tight or incomplete condition, clean-ups that drop a side effect, and optimisations resting on a false",
+        "invariant. Fourteen more are reported after additions: DETACHRELEASE (a detach that answers with a new buffer released the old reference),",
+        "SCANALL (a slot walk is not ended by a hole), LAZYREAD (a first-use table is read behind its first-use test), FRAGZERO and FRAGFIRST (byte 0 of a",
+        "fragment is examined; no exit on the first fragment alone), DEADLOOP (interval analysis enters every loop), MAXSTORE (capacity of a ring queue",
+        "changes only while the content does not wrap), PARAMCLASS (case limits of integer parameters, reference table), callbacks in CONSTIFACE, the path",
+        "clause of DERIVEDFIELD, GAPFILL for the insert functions, SUMWRAP (limit tests whose sum can wrap) and INITWRITES for C15. 11 stay missed: added",
+        "shortcuts and stores that contradict nothing that existed, and choices between two callees or two masks.\n"]
+out += table(R10)
 out.append("\n## Behaviour-preserving refactorings (false-alarm test)\n")
 out.append("Eight further agents produced 40 behaviour-preserving refactorings (renames, loop rewrites, helper extraction, condition restructuring,")
 out.append("temporaries) in the files with the densest rules, each with a differential driver showing identical behaviour. `tools/benign_test.sh` runs")
